@@ -102,7 +102,8 @@ Proof.
   - destruct (popn n (stk s) []) as [[args [|obj st']]|]; try reflexivity.
     destruct (fetch_fn fe obj name) as [id|e]; [|reflexivity]. apply of_result_call.
   - destruct (popn n (stk s) []) as [[args [|obj st']]|]; try reflexivity.
-    destruct obj; try (destruct (fetch_fn fe _ name) as [id|e]; [apply of_result_call|reflexivity]).
+    destruct obj; try (destruct (fetch_fn_zero _ name); [unfold mem; cbn [rs]; split; [lia|intros; lia]|];
+                       destruct (fetch_fn fe _ name) as [id|e]; [apply of_result_call|reflexivity]).
     unfold mem; cbn [rs]. split; [lia|intros; lia].
   - (* IArray *)
     destruct (stk s) as [|v st0]; [reflexivity|]. destruct (as_int v) as [n|e]; [|reflexivity].
@@ -202,7 +203,8 @@ Proof.
   - destruct (popn n (stk s) []) as [[args [|obj st']]|]; try discriminate.
     destruct (fetch_fn fe obj name) as [id|e]; [|discriminate]. apply of_result_call_same.
   - destruct (popn n (stk s) []) as [[args [|obj st']]|]; try discriminate.
-    destruct obj; try (destruct (fetch_fn fe _ name) as [id|e]; [apply of_result_call_same|discriminate]).
+    destruct obj; try (destruct (fetch_fn_zero _ name); [intros HH; inversion HH; subst; reflexivity|];
+                       destruct (fetch_fn fe _ name) as [id|e]; [apply of_result_call_same|discriminate]).
     intros HH; inversion HH; subst; reflexivity.
 Qed.
 
